@@ -32,17 +32,17 @@ class _FakeH11:
 
 @harness(
     "C13",
-    dom={"ui": (0, 6), "cl": "bool", "te": "bool", "pri": (0, 3), "trail": (0, 2), "settings": "bool"},
+    dom={"ui": (0, 6), "cl": "bool", "te": "bool", "pri": (0, 3), "trail": (0, 2), "settings": "bool", "order": (0, 2)},
     split={"ui": "each"},
-    witnesses=[{"ui": 1, "cl": False, "te": False, "pri": 0, "trail": 1, "settings": True}, {"ui": 0, "cl": False, "te": False, "pri": 3, "trail": 2, "settings": False}],
+    witnesses=[{"ui": 1, "cl": False, "te": False, "pri": 0, "trail": 1, "settings": True, "order": 0}, {"ui": 1, "cl": True, "te": False, "pri": 0, "trail": 2, "settings": True, "order": 2}],
     budget=60,
-    bounds="_check_protocol: 7 Upgrade values x content-length present x transfer-encoding present x request line in {ordinary, PRI * HTTP/2.0, PRI /x HTTP/2.0, GET * HTTP/2.0} x trailing data {none, 5 bytes, 100 bytes} x HTTP2-Settings header present or not",
+    bounds="_check_protocol: 7 Upgrade values x content-length present x transfer-encoding present x request line in {ordinary, PRI * HTTP/2.0, PRI /x HTTP/2.0, GET * HTTP/2.0} x trailing data {none, 5 bytes, 100 bytes} x HTTP2-Settings header present or not x header order {upgrade first, body-framing headers first, an unrelated header last}",
     encodes=["hypercorn/protocol/h11.py::H11Protocol._check_protocol", "hypercorn/protocol/h11.py::H2CProtocolRequiredError.__init__"],
     stubs=["h11.Connection replaced by a fake exposing trailing_data and recording send()"],
 )
-def check_protocol_table(ui: int, cl: bool, te: bool, pri: int, trail: int, settings: bool) -> bool:
+def check_protocol_table(ui: int, cl: bool, te: bool, pri: int, trail: int, settings: bool, order: int) -> bool:
     """
-    pre: DOM(check_protocol_table, ui=ui, cl=cl, te=te, pri=pri, trail=trail, settings=settings)
+    pre: DOM(check_protocol_table, ui=ui, cl=cl, te=te, pri=pri, trail=trail, settings=settings, order=order)
     post: _
     """
     enter()
@@ -62,6 +62,11 @@ def check_protocol_table(ui: int, cl: bool, te: bool, pri: int, trail: int, sett
         headers.append((b"content-length", b"3"))
     if te:
         headers.append((b"transfer-encoding", b"chunked"))
+    order = conc(order, 0, 2)
+    if order == 1:
+        headers.reverse()  # body-framing headers first, upgrade and the rest after them
+    elif order == 2:
+        headers.append((b"x-request-id", b"abc"))  # an unrelated header after the body-framing ones
 
     class Req:  # what h11 hands over (only the attributes _check_protocol reads)
         pass
@@ -106,7 +111,7 @@ def check_protocol_table(ui: int, cl: bool, te: bool, pri: int, trail: int, sett
         ok = ok and isinstance(e, H2ProtocolAssumedError) and e.data == b"PRI * HTTP/2.0\r\n\r\n" + trailing and fake.sent == []
     else:
         ok = ok and e is None and fake.sent == []
-    return done(ok, upgrade=up, cl=cl, te=te, pri=pri, trail=len(trailing), settings=settings)
+    return done(ok, upgrade=up, cl=cl, te=te, pri=pri, trail=len(trailing), settings=settings, order=order)
 
 
 # ------------------------------------------------------------------ openings
@@ -184,8 +189,8 @@ def _opening_bytes(oi: int):
         return h1_request("POST", b"/plain", [(b"Host", b"example.com")], [b"abc"], "content-length"), st
     if oi == 6:
         c = H2Client(upgrade=True)
-        return h1_request("POST", b"/upbody", [(b"Host", b"example.com"), (b"Connection", b"Upgrade, HTTP2-Settings"), (b"Upgrade", b"h2c"), (b"HTTP2-Settings", _h2c_settings_header(c))],
-                          [b"abc"], "content-length"), st
+        return h1_request("POST", b"/upbody", [(b"Host", b"example.com"), (b"Connection", b"Upgrade, HTTP2-Settings"), (b"Upgrade", b"h2c"), (b"Content-Length", b"3"),
+                                               (b"HTTP2-Settings", _h2c_settings_header(c)), (b"X-Request-Id", b"abc")], [b"abc"], "none") + b"abc", st
     return h1_request("GET", b"/a", [(b"Host", b"example.com")]) + h1_request("GET", b"/b", [(b"Host", b"example.com")]), st
 
 
